@@ -495,7 +495,14 @@ impl<'a> Gen<'a> {
                 0..=3 => self.atom(env, Kind::Int),
                 4 => {
                     let op = self.rng.pick(&["+", "-", "*", "//", "%"]);
-                    format!("{} {} {}", self.expr_p(env, Kind::Int, d), op, self.expr_p(env, Kind::Int, d))
+                    if env.ctx_visible && self.rng.chance(1, 3) {
+                        // both operands at the edges of the integer range (i128::MIN op -1 ...)
+                        let l = self.rng.pick(&["n_big", "n_edge", "(0 - n_edge - 1)", "(0 - n_edge)", "(-9223372036854775807 - 1)", "(n_big + 1)", "0"]);
+                        let r = self.rng.pick(&["-1", "(0 - 1)", "0", "1", "2", "n_big", "n_edge", "(0 - n_edge - 1)", "-n_small", "(1 - 2)"]);
+                        format!("{} {} {}", l, op, r)
+                    } else {
+                        format!("{} {} {}", self.expr_p(env, Kind::Int, d), op, self.expr_p(env, Kind::Int, d))
+                    }
                 }
                 5 => format!("{} ** {}", self.expr_p(env, Kind::Int, d), self.rng.below(5)),
                 6 => format!("{} | length", self.expr_p(env, self.rng.pick(&[Kind::ArrAny, Kind::Str, Kind::Map, Kind::ArrInt]), d)),
@@ -819,14 +826,20 @@ impl<'a> Gen<'a> {
             }
         }
         if c.rest && self.rng.chance(1, 2) {
-            parts.push(format!("extra1={{{}}}", self.literal(Kind::Int)));
+            // an undeclared argument collected by `...rest`: a literal, any expression, or undefined
+            let v = match self.rng.below(4) {
+                0 => self.undefined_name(),
+                1 => self.expr(env, Kind::Any, depth),
+                _ => self.literal(Kind::Int),
+            };
+            parts.push(format!("extra1={{{}}}", v));
             if self.rng.chance(1, 2) {
                 parts.push(format!("data_x={}", "\"rest\""));
             }
         } else if !c.rest && self.rng.below(1000) < self.cfg.ill_typed / 2 {
             parts.push("bogus={1}".to_string()); // at most one undeclared argument
         }
-        if self.rng.chance(1, 10) && env.ctx_visible && c.params.iter().any(|p| p.name == "k") {
+        if self.rng.chance(1, 10) && env.ctx_visible && (c.rest || c.params.iter().any(|p| p.name == "k")) {
             parts.push("{...m}".to_string());
         }
         parts.join(" ")
